@@ -12,6 +12,8 @@ NA = {
 PENDING = "contracts and obligations for this property are still under construction in this session; not claimed until they discharge"
 TECH = "contract-based deductive verification: VCs generated over go/ssa of the real code from //@ contracts, discharged by z3 5.1.0 / z3 4.8.12 / cvc5 1.0.3"
 CLAIMS = {
+ "C05": ("The in-memory admission pipeline is under contract end to end: newSpec, (*Spec).validate, newDevice, (*Device).validate, (*ContainerEdits).Validate/isEmpty, ValidateEnv, the DeviceNode/Hook/Mount/IntelRdt validators, ValidateSpecAnnotations, ValidateVersion and the version predicates (C06), the vendor/class/device-name validators (C07). Top-level postcondition of newSpec: err = nil iff the pluggable validator accepts and RawSpecOK(raw), where RawSpecOK is transcribed from the statement (released version not below the minimum, kind = valid vendor/class, annotations checked whatever their static type, spec-level edits well-formed, at least one device, every device with a valid name, checked annotations, non-empty well-formed edits, names pairwise distinct, null list entries rejected); every leaf validator has its own iff contract; loops by invariants over any number of devices and entries.",
+         "Assumed: yaml.UnmarshalStrict (unknown/duplicate keys, surface syntax) — everything before a *cdi.Spec value exists; the k8s qualified-name and size checks of internal/validation/k8s are an opaque predicate introduced by a trusted contract on k8s.ValidateAnnotations (what is proved is that it is consulted for every annotation map); the pluggable validator is uninterpreted; strings.IndexByte/ContainsAny/Join, errors.New, fmt.Errorf; ReadSpec and WriteSpec wrappers (file I/O) are not under contract, they call newSpec.", "DESIGN.md §4 C05"),
  "C07": ("Every function of pkg/parser is under contract; the grammar (VCName/DevName/QName predicates transcribed from the statement), exact recomposition, the failure results and compose-then-parse are postconditions discharged for all strings of every length and byte content, with loop invariants instead of unrolling; all run-time panic conditions of those functions are discharged under precondition true (totality).",
          "Assumed: strings.SplitN(s,sep,2) for one-byte sep, fmt.Errorf non-nil, UTF-8 range axiom (weakened), gocv's translation, solver unsat answers. No bound on string length.", "DESIGN.md §4 C07, Appendix C"),
  "C15": ("AnnotationKey, AnnotationValue, UpdateAnnotations and ParseAnnotations are under contract: key validity as an iff over all plugin/id strings (k8s name shape, 63 limit, '/'→'_'), value = comma-join whose pieces are exactly the devices (stated through strings.Split's piece function), map frame (error: map untouched; success: exactly one new key, none overwritten), parse: CDI keys exactly once each, every device qualified, error ⇒ empty results, and for a single CDI key the devices are exactly the pieces in order. Loops by invariants; no bound on map size, list length or string length.",
